@@ -409,6 +409,24 @@ def c11_task(task):
                             symbols=syms[:40], model=m[:200], impl=impl[:200], impl_exception=outc))
 
     def src_model(src, got, outc, nm):
+        # text level: Tokenizer.get_symbols / compile_text on the source text itself
+        if src.isascii():
+            try:
+                isy = 'ok:' + ','.join((x.encode().hex() or '-') for x in P.get_symbols(src))
+            except BaseException:
+                isy = 'err'
+            icp = ('ok:' + tsh.hx(got)) if got is not None else 'err'
+            m = model.cmd('CTXT ' + (src.encode().hex() or '-')).split(' ')
+            for what, mi, ii in (('get_symbols', m[0], isy), ('compile_text', m[1], icp)):
+                if mi == 'unm':
+                    stats['textmodel:' + what + ':unm'] += 1
+                elif mi == ii or (what == 'compile_text' and mi.startswith('ok:') and ii.startswith('ok:') and mi[3:].replace('-', '') == ii[3:].replace('-', '')):
+                    stats['textmodel:' + what + ':agree'] += 1
+                else:
+                    stats['textmodel:' + what + ':differ'] += 1
+                    if len(dis) < 5:
+                        dis.append(dict(stream='Tokenizer.%s vs parsing on the text of a %s source' % (what, nm), source=src[:300],
+                                        model=mi[:200], impl=ii[:200]))
         try:
             syms = P.get_symbols(src)
         except BaseException:
@@ -457,6 +475,13 @@ def c11_task(task):
             # source as written and on a damaged copy (a symbol dropped / doubled / swapped / replaced)
             if nm != 'macro/comptime':
                 src_model(src, got, outc, nm)
+                if rng.random() < 0.3:          # the same source with its whitespace re-drawn (tabs, newlines, runs)
+                    ws = ''.join(rng.choice([' ', '  ', '\t', '\n', ' \n ', '\r\n', '\x0b', '\x0c', '\x1c']) if ch == ' ' else ch for ch in src)
+                    try:
+                        g2, o2 = P.compile_script(ws), 'ok'
+                    except BaseException as e2:
+                        g2, o2 = None, type(e2).__name__
+                    src_model(ws, g2, o2, nm + '+whitespace')
                 try:
                     syms = P.get_symbols(src)
                 except BaseException:
